@@ -30,6 +30,7 @@ type UnprovedList struct {
 	// field path is the tail of a baseline path (the same access, now rooted at a
 	// parameter) stays unclaimed instead of being reported.
 	Funcs map[string]bool
+	Cut   map[string]bool // paths whose description was cut at the depth limit
 }
 
 func (u *UnprovedList) skip(fn, name string, params map[string]bool) bool {
@@ -42,6 +43,26 @@ func (u *UnprovedList) skip(fn, name string, params map[string]bool) bool {
 	}
 	if u.Paths[p] {
 		return true
+	}
+	// a description cut at its depth limit ("_" for the part not shown) names
+	// the same access as a longer or shorter cut of it
+	if m := reOblName.FindStringSubmatch(name); m != nil {
+		i := strings.Index(p, "/")
+		kind, tail := p[:i+1], p[i+1:]
+		cut := strings.HasPrefix(m[3], "_")
+		for q := range u.Paths {
+			if !strings.HasPrefix(q, kind) || !(cut || u.Cut[q]) {
+				continue
+			}
+			qt := q[len(kind):]
+			short, long := tail, qt
+			if len(short) > len(long) {
+				short, long = long, short
+			}
+			if strings.Count(short, ".") >= 2 && strings.HasSuffix(long, short) {
+				return true
+			}
+		}
 	}
 	if u.isNew(fn) {
 		i := strings.Index(p, "/")
@@ -87,7 +108,7 @@ func unprovedPath(name string) string {
 }
 
 func LoadUnproved(path string) *UnprovedList {
-	u := &UnprovedList{Names: map[string]bool{}, Paths: map[string]bool{}, Funcs: map[string]bool{}}
+	u := &UnprovedList{Names: map[string]bool{}, Paths: map[string]bool{}, Funcs: map[string]bool{}, Cut: map[string]bool{}}
 	if fd, err := os.ReadFile(strings.TrimSuffix(path, "-unproved.json") + "-functions.json"); err == nil {
 		var fs []string
 		if json.Unmarshal(fd, &fs) == nil {
@@ -106,6 +127,9 @@ func LoadUnproved(path string) *UnprovedList {
 			u.Names[n] = true
 			if p := unprovedPath(n); p != "" {
 				u.Paths[p] = true
+				if m := reOblName.FindStringSubmatch(n); m != nil && strings.HasPrefix(m[3], "_") {
+					u.Cut[p] = true
+				}
 			}
 		}
 	}
